@@ -3,7 +3,6 @@ package valgen
 import (
 	"math/big"
 	"reflect"
-	"strings"
 	"sync/atomic"
 	"time"
 )
@@ -56,17 +55,31 @@ func (f *Filler) New(typ reflect.Type) reflect.Value {
 	return p
 }
 
-// Skipped reports whether the codec ignores the struct field.
-func Skipped(sf reflect.StructField) bool {
+// notTransported lists the exported fields that are deliberately kept out of
+// the encoding (derived values and caches, tagged rlp:"-" and documented as
+// such). The list is explicit on purpose: the harness does NOT read the tag,
+// so a field that loses its place in the encoding by a new tag (or by a custom
+// encoder forgetting it) is still filled and compared, and shows up as a
+// round-trip difference.
+var notTransported = map[string]bool{
+	"github.com/lianxiangcloud/linkchain/types.CandidateInOrder.RankResult":        true, // derived ranking, recomputed
+	"github.com/lianxiangcloud/linkchain/types.TxsResult.CandidatesMap":            true, // index over Candidates
+	"github.com/lianxiangcloud/linkchain/types.Log.Removed":                        true, // reorg flag, local
+	"github.com/lianxiangcloud/linkchain/types.LogForStorage.Removed":              true,
+	"github.com/lianxiangcloud/linkchain/types.EventDataRoundState.RoundState":     true, // "private, not exposed"
+	"github.com/lianxiangcloud/linkchain/libs/cryptonote/types.MgSig.II":           true, // recomputed from inputs
+	"github.com/lianxiangcloud/linkchain/libs/cryptonote/types.Bulletproof.V":      true, // recomputed from outPk
+	"github.com/lianxiangcloud/linkchain/libs/cryptonote/types.RctSigBase.Message": true,
+	"github.com/lianxiangcloud/linkchain/libs/cryptonote/types.RctSigBase.MixRing": true,
+}
+
+// Skipped reports whether field sf of struct type owner is outside the wire
+// form: unexported, or listed in notTransported.
+func Skipped(owner reflect.Type, sf reflect.StructField) bool {
 	if sf.PkgPath != "" {
 		return true
 	}
-	for _, tg := range strings.Split(sf.Tag.Get("rlp"), ",") {
-		if strings.TrimSpace(tg) == "-" {
-			return true
-		}
-	}
-	return false
+	return notTransported[owner.PkgPath()+"."+owner.Name()+"."+sf.Name]
 }
 
 // Fill fills v (settable) in place.
@@ -213,7 +226,7 @@ func (f *Filler) Fill(v reflect.Value, depth int) {
 		}
 		for i := 0; i < typ.NumField(); i++ {
 			sf := typ.Field(i)
-			if Skipped(sf) {
+			if Skipped(typ, sf) {
 				continue
 			}
 			fv := v.Field(i)
